@@ -14,7 +14,7 @@
 (*                                                                                                                  *)
 (* Record r (one call of the real code; every field present in every record):                                        *)
 (*   op        "center.<est>" (est: median, mean, biweight, mode, default = no estimator argument) | "shiftxx" |      *)
-(*             "flat" | "sex"                                                                                         *)
+(*             "flat" | "sex" (scenario without a PAR genome) | "sex.par" (scenario with one: shift_xx not called)    *)
 (*   pfx       naming style of the whole table, "chr" or ""        genome   "none" | "grch37" | "grch38"             *)
 (*   bn, bs    chromosome name of row i: pfx \o ToString(bn[i]) when bn[i] >= 0 ("named like an autosome":           *)
 (*             (chr)?[0-9]+), else pfx \o bs[i] with bs[i] in CtOtherNames (bn[i] = -1)                               *)
@@ -31,6 +31,11 @@
 (*   sex:      scenario female, hapx, withy, usew, sdm (noise sd in 1/1000), nx, sseed, w (weights k/64 or <<>>);     *)
 (*             guess ("female" | "male" | "none" | other), dosex (the `sex` column of do_sex), cli, clisex            *)
 (*             (`cnvkit.py sex` run in-process on the written file), so / soff (shift_xx with is_xx=None), fo / foff  *)
+(* Scope of the PAR genome (the property's quantifier): it ranges over centring ("every estimator x by_chrom x        *)
+(* skip_low x PAR genome"); the sex part does not range over it.  shift_xx is therefore judged only when no           *)
+(* diploid_parx_genome is passed to it (premise of "shiftxx"; "sex.par" scenarios do not call it).  expect_flat_log2   *)
+(* is judged with and without a genome.  The A-layer models shift_xx as the code is (mask = every row named X,        *)
+(* genome or not); CtShiftXXMovesParX below records what that does to PAR-X bins -- outside the claim.                *)
 EXTENDS Stats, FiniteSetsExt
 K == INSTANCE Karyotype      \* (its `Prefixes` clashes with SequencesExt.Prefixes, hence a named instance)
 
@@ -208,6 +213,7 @@ Clauses(op) ==
       [] op = "flat" -> {"flat_noerr", "flat_levels"}
       [] op = "sex" -> {"sex_noerr", "sex_guess_xx", "sex_do_sex", "sex_cli_report", "sex_shift_x_to_autosomal_level",
                         "sex_shift_rest_untouched", "sex_flat_levels"}
+      [] op = "sex.par" -> {"sex_noerr", "sex_guess_xx", "sex_do_sex", "sex_cli_report", "sex_flat_levels"}
       [] OTHER -> {}
 
 CtDelta(r, i) == ZSub(r.out[i], r.x[i])
@@ -285,9 +291,12 @@ Premise(r) ==
            (* the autosomal bins that are not ignored must exist for their estimator to be spoken of: a table whose   *)
            (* autosome-named bins are ALL null-coverage (and skipped) is outside the statement                       *)
            /\ (\E i \in 1..CtN(r) : CtIsAutoName(r, i)) => (\E i \in CtKeptP(r) : CtIsAutoName(r, i))
-      [] r.op \in {"shiftxx", "flat"} -> CtNamesOK(r) /\ Len(r.k) = CtN(r) /\ CtN(r) >= 1 /\ r.U > 0
-      [] r.op = "sex" ->
+      [] r.op = "flat" -> CtNamesOK(r) /\ Len(r.k) = CtN(r) /\ CtN(r) >= 1 /\ r.U > 0
+      (* shift_xx: only without a PAR genome (see the header) *)
+      [] r.op = "shiftxx" -> CtNamesOK(r) /\ Len(r.k) = CtN(r) /\ CtN(r) >= 1 /\ r.U > 0 /\ r.genome = "none"
+      [] r.op \in {"sex", "sex.par"} ->
            /\ CtNamesOK(r) /\ Len(r.k) = CtN(r) /\ r.U = 1024
+           /\ (r.op = "sex") = (r.genome = "none")
            (* "noise sd 0.01..0.3", "40..400 bins on X" *)
            /\ r.sdm \in 10..300
            /\ r.nx \in 40..400 /\ Cardinality(CtXRows(r)) = r.nx
@@ -318,19 +327,19 @@ Drift(r) ==
       [] r.op = "shiftxx" -> CtForce(CtAShiftXX(r, r.isxx)) # r.so
       [] r.op = "flat" -> CtForce(CtAFlat(r)) # r.fo
       [] r.op = "sex" -> CtForce(CtAShiftXX(r, CtObservedGuess(r))) # r.so \/ CtForce(CtAFlat(r)) # r.fo
+      [] r.op = "sex.par" -> CtForce(CtAFlat(r)) # r.fo
       [] OTHER -> FALSE
 
 (* ================================================================ known findings *)
-(* shift_xx moves EVERY row named X, also the PAR-X rows that the caller asked (diploid_parx_genome) to be treated as  *)
-(* diploid/autosomal: a non-zero shift with a genome build and a PAR-X row present                                     *)
+KnownTriggers == {}
+TriggerHolds(t, r) == FALSE
+(* Outside the claim (see the header), recorded for DESIGN.md: shift_xx moves EVERY row named X, also the PAR-X rows    *)
+(* that the caller asked (diploid_parx_genome) to be treated as diploid / autosomal.  True of an input when a genome    *)
+(* build is given, a PAR-X row is present and the specified shift is not 0; MC_Centering.DesignShiftXXWithGenome         *)
+(* (not part of the check) is violated by exactly these inputs.                                                          *)
 CtShiftXXMovesParX(r) ==
-    /\ r.op \in {"shiftxx", "sex"}
+    /\ r.op = "shiftxx"
     /\ r.genome # "none"
     /\ \E i \in 1..CtN(r) : CtClass(r, i) = "PARX"
-    /\ IF r.op = "sex" THEN CtXLevel(r.female, r.hapx) # 0 ELSE CtSpecShift(r.isxx, r.hapx, r.U) # 0
-KnownTriggers == {"ShiftXXMovesParX"}
-TriggerHolds(t, r) == CASE t = "ShiftXXMovesParX" -> CtShiftXXMovesParX(r)
-                        [] OTHER -> FALSE
-TriggerClauses(t) == CASE t = "ShiftXXMovesParX" -> {"shiftxx_rest_untouched", "sex_shift_rest_untouched"}
-                       [] OTHER -> {}
+    /\ CtSpecShift(r.isxx, r.hapx, r.U) # 0
 =============================================================================
